@@ -167,7 +167,22 @@ def run_case(ctx, rng, kind, centered, n_dim, n_cov, n_ids, sel_mode,
     names = model.get_parameter_names()
     n_expected = npd * n_dim + len(sel) * n_cov
     base_names = base.get_parameter_names()
-    cov_names = model.get_covariate_names()
+    cov_names = list(model.get_covariate_names())
+    # what a getter hands out is the caller's: editing it is not a
+    # configuration call
+    for getter in (model.get_covariate_names, model.get_parameter_names,
+                   model.get_dim_names):
+        got = getter()
+        if isinstance(got, list):
+            got.reverse()
+            got.append('edited by the caller')
+    if model.get_parameter_names() != names or \
+            list(model.get_covariate_names()) != cov_names:
+        ctx.violation('names_identify_parameter_dimension_covariate',
+                      'names_changed_by_editing_a_returned_list',
+                      {'before': names, 'after': model.get_parameter_names(),
+                       'covariate_names': model.get_covariate_names()}, feats)
+        return
     if model.n_parameters() != n_expected or len(names) != n_expected:
         ctx.violation('parameter_count', 'count_mismatch',
                       {'n_parameters': model.n_parameters(),
